@@ -510,7 +510,20 @@ pub fn schema_from(bytes: &[u8], f: u16) -> Result<(Schema, usize), SavefileErro
 """
 
 def unwind_for(node):
-    return 6 + max([0] + [len(c.fields) if isinstance(c, Struct) else 0 for c in walk(node)]) + (4 if node.has_trait() else 0)
+    """loops: string byte loops (reader stub, comparator, memcmp), field / variant / method loops"""
+    m = 3
+    for c in walk(node):
+        strs, counts = [], []
+        if isinstance(c, Struct): strs += [c.name] + [f.name for f in c.fields]; counts.append(len(c.fields))
+        if isinstance(c, Enum):
+            strs += [c.name] + [v.name for v in c.variants] + [f.name for v in c.variants for f in v.fields]
+            counts += [len(c.variants)] + [len(v.fields) for v in c.variants]
+        if isinstance(c, Custom): strs.append(c.name)
+        if isinstance(c, TraitLike):
+            strs += [c.name + ("+Sync" if c.sync else "") + ("+Send" if c.send else "")] + [m_.name for m_ in c.methods]
+            counts += [len(c.methods)] + [len(m_.args) for m_ in c.methods]
+        m = max([m] + [len(x) for x in strs] + counts)
+    return m + 2
 
 def walk(n):
     yield n
@@ -525,7 +538,7 @@ def emit():
     mods = {"c13s": {"q": [], "t": []}, "c13z": {"q": [], "t": []}, "c13d": {"q": [], "t": []}, "c11l": {"q": [], "t": []}, "c06s": {"q": [], "t": []}}
     for (tier, name, node) in S:
         cat.append({"shape": name, "tier": tier, "desc": node.desc(), "nodes": node.size()})
-        uw = 18 if node.has_trait() else 12
+        uw = unwind_for(node)
         # ---- C13 (a)+(b): write == reference bytes, read(reference) == schema, f in {1,2}
         for f in (1, 2):
             ctx = Ctx("a")
@@ -541,7 +554,7 @@ def emit():
             body.append("let (s2, left) = schema_from(&r.b[..r.n], %d).unwrap();" % f)
             body.append('assert!(left == 0, "C13: schema reader did not consume the whole section");')
             body.append("let expect: Schema = %s;" % i_build(node, i, f))
-            body.append('assert!(s2 == expect, "C13: schema read back differs from the schema written");')
+            body.append('assert!(crate::scmp::schema_same(&s2, &expect), "C13: schema read back differs from the schema written");')
             body += ["std::mem::forget(s); std::mem::forget(s2); std::mem::forget(expect);", 'kani::cover!(true, "reached end");']
             mods["c13s"][tier].append("kproof!(%s_f%d, %d, {\n        %s\n    });" % (name, f, uw, "\n        ".join(body)))
         # ---- C13 format 0: reference bytes in the original layout decode to the erased schema
@@ -551,7 +564,7 @@ def emit():
         body.append("let (s2, left) = schema_from(&r.b[..r.n], 0).unwrap();")
         body.append('assert!(left == 0, "C13: format-0 schema reader did not consume the whole section");')
         body.append("let expect: Schema = %s;" % i.erased)
-        body.append('assert!(s2 == expect, "C13: format-0 schema section decodes to a different schema");')
+        body.append('assert!(crate::scmp::schema_same(&s2, &expect), "C13: format-0 schema section decodes to a different schema");')
         body += ["std::mem::forget(s2); std::mem::forget(expect);", 'kani::cover!(true, "reached end");']
         mods["c13z"][tier].append("kproof!(%s_f0, %d, {\n        %s\n    });" % (name, uw, "\n        ".join(body)))
         # ---- C13 diff: same shape, independent leaves: diff is None <=> oracle (non-trait shapes); traits: reflexive only
